@@ -19,9 +19,11 @@ type ParserData struct {
 	loopInfo      []struct {
 		continueIndex int
 		breakIndex    int
+		blockDepth    int // 进入循环体时 openBlocks 的长度
 	}
-	loopLayer int // 当前loop层数
-	codeStack []struct {
+	loopLayer  int        // 当前loop层数
+	openBlocks []CodeType // 解析到当前位置时尚未关闭的语句块，记录的是各自的关闭指令
+	codeStack  []struct {
 		code    []ByteCode
 		index   int
 		textPos int
@@ -45,7 +47,8 @@ func (e *ParserData) LoopBegin() {
 	e.loopInfo = append(e.loopInfo, struct {
 		continueIndex int
 		breakIndex    int
-	}{continueIndex: len(e.continueStack), breakIndex: len(e.breakStack)})
+		blockDepth    int
+	}{continueIndex: len(e.continueStack), breakIndex: len(e.breakStack), blockDepth: len(e.openBlocks)})
 }
 
 func (e *ParserData) LoopEnd() {
@@ -54,6 +57,15 @@ func (e *ParserData) LoopEnd() {
 	e.continueStack = e.continueStack[:info.continueIndex]
 	e.breakStack = e.breakStack[:info.breakIndex]
 	e.loopInfo = e.loopInfo[:len(e.loopInfo)-1]
+}
+
+// loopBlocksClose 在 break/continue 跳转之前，关闭循环体内尚未关闭的语句块(if / 字符串模板)
+// 否则跳转会越过它们的 block.pop，每次循环都会让vm的块层数加一
+func (e *ParserData) loopBlocksClose() {
+	info := e.loopInfo[len(e.loopInfo)-1]
+	for i := len(e.openBlocks) - 1; i >= info.blockDepth; i-- {
+		e.WriteCode(e.openBlocks[i], nil)
+	}
 }
 
 func (e *ParserData) checkStackOverflow() bool {
@@ -90,6 +102,16 @@ func (e *ParserData) AddOp(operator CodeType) {
 	var val interface{} = nil
 	if operator == typeJne || operator == typeJmp {
 		val = IntType(0)
+	}
+	switch operator {
+	case typeBlockPush:
+		e.openBlocks = append(e.openBlocks, typeBlockPop)
+	case typeFStringBlockPush:
+		e.openBlocks = append(e.openBlocks, typeFStringBlockPop)
+	case typeBlockPop, typeFStringBlockPop:
+		if len(e.openBlocks) > 0 {
+			e.openBlocks = e.openBlocks[:len(e.openBlocks)-1]
+		}
 	}
 	e.WriteCode(operator, val)
 }
@@ -182,6 +204,7 @@ func (p *ParserData) ContinuePush() error {
 		if p.continueStack == nil {
 			p.continueStack = []IntType{}
 		}
+		p.loopBlocksClose()
 		p.AddOp(typeJmp)
 		p.continueStack = append(p.continueStack, IntType(p.codeIndex)-1)
 	} else {
@@ -216,6 +239,7 @@ func (p *ParserData) BreakPush() error {
 		if p.breakStack == nil {
 			p.breakStack = []IntType{}
 		}
+		p.loopBlocksClose()
 		p.AddOp(typeJmp)
 		p.breakStack = append(p.breakStack, IntType(p.codeIndex)-1)
 		return nil
